@@ -59,8 +59,12 @@ def sync(flavour='plain', root=None, quiet=True):
     """Bring the overlay up to date with /repo's working tree. Returns (overlay_root, info)."""
     t0 = time.time()
     os.makedirs(CACHE, exist_ok=True)
-    root = root or os.path.join(CACHE, 'overlay' if flavour == 'plain' else 'overlay_' + flavour)
-    lock = open(os.path.join(CACHE, 'overlay_%s.lock' % flavour), 'w')
+    suffix = '' if flavour == 'plain' else '_' + flavour
+    if os.path.abspath(REPO) != '/repo':
+        # a scratch copy of the repository (VERIF_REPO=...): its own overlay, shared object cache
+        suffix += '_' + hashlib.sha256(os.path.abspath(REPO).encode()).hexdigest()[:8]
+    root = root or os.path.join(CACHE, 'overlay' + suffix)
+    lock = open(os.path.join(CACHE, 'overlay%s.lock' % suffix), 'w')
     fcntl.flock(lock, fcntl.LOCK_EX)
     try:
         return _sync_locked(flavour, root, quiet, t0)
